@@ -36,15 +36,20 @@ type Program struct {
 
 // Load loads root (normally /repo). Any load or type error is returned: a
 // check never reports "held" on a tree it could not fully see.
-func Load(root string) (*Program, error) {
-	p, err := load(root, root, 11)
+func Load(root string) (*Program, error) { return LoadOverlay(root, nil) }
+
+// LoadOverlay is Load with some files replaced by the given contents (the
+// source-level inlining of helper functions that are new relative to the
+// pinned tree, see package inl).
+func LoadOverlay(root string, overlay map[string][]byte) (*Program, error) {
+	p, err := load(root, root, 11, overlay)
 	if err != nil {
 		return nil, err
 	}
 	// The cache module is a separate module (the root module builds against
 	// the released copy in the module cache), so /repo/cache is analysed from
 	// its own directory.
-	cp, err := load(root, filepath.Join(root, "cache"), 2)
+	cp, err := load(root, filepath.Join(root, "cache"), 2, overlay)
 	if err != nil {
 		return nil, fmt.Errorf("cache module: %v", err)
 	}
@@ -52,12 +57,13 @@ func Load(root string) (*Program, error) {
 	return p, nil
 }
 
-func load(root, dir string, minPkgs int) (*Program, error) {
+func load(root, dir string, minPkgs int, overlay map[string][]byte) (*Program, error) {
 	cfg := &packages.Config{
-		Mode:  packages.LoadAllSyntax,
-		Dir:   dir,
-		Tests: false,
-		Env:   append(os.Environ(), "GOWORK=off"),
+		Mode:    packages.LoadAllSyntax,
+		Dir:     dir,
+		Tests:   false,
+		Env:     append(os.Environ(), "GOWORK=off"),
+		Overlay: overlay,
 	}
 	pkgs, err := packages.Load(cfg, "./...")
 	if err != nil {
@@ -103,7 +109,9 @@ func load(root, dir string, minPkgs int) (*Program, error) {
 // IsModPkg reports whether pkg belongs to the neutrino modules.
 func (p *Program) IsModPkg(pkg *types.Package) bool { return pkg != nil && p.modPkgs[pkg] }
 
-// excludedFile: tests and hand-written mocks are never rule subjects.
+// ExcludedFile: tests and hand-written mocks are never rule subjects.
+func ExcludedFile(name string) bool { return excludedFile(name) }
+
 func excludedFile(name string) bool {
 	b := filepath.Base(name)
 	return strings.HasSuffix(b, "_test.go") || strings.HasSuffix(b, "_mock.go")
